@@ -504,138 +504,3 @@ def replay_flatten(rp):
             probs.append("a hierarchical instance remains")
         probs += wellformed.c01_problems(wellformed.closure(list(objs.values())))
         return bool(probs), "flatten: %s" % probs[:3]
-
-
-NAMES = {"shared-sub": {"Netlist": ["n"], "Library": ["work"], "Definition": ["TOP", "SUB", "LEAF"],
-                        "Port": ["clk", "A", "P"], "Cable": ["n", "a_int"], "Instance": ["top", "u1", "u2", "l0"]}}
-
-
-def eblif_compose_job(fixture, tier, timeout_ms=300000):
-    """EBLIFComposer.run on a hierarchy-concrete, concretely named fixture with SYMBOLIC connections and symbolic
-    EBLIF.type tags: the netlist is left unchanged, no process-wide state is written, and a second run by a
-    fresh composer emits the same text."""
-    from spydrnet.composers.eblif.eblif_composer import EBLIFComposer
-    from vf.e1.vals import Local, to_atom
-    from vf.e1.interp import live
-    t0 = time.time()
-    name = "C16/EBLIFComposer.run{%s}" % fixture
-    fxd = H.FIXTURES[fixture]
-    u = H.Universe(fxd["live"], {}, 3, keys=(".NAME", "EBLIF.type"), atoms=("EBLIF.subckt", "EBLIF.gate", "EBLIF.other"))
-    _, pre, fx = H.build(fixture, u=u)
-    for c, names in NAMES[fixture].items():
-        for i, nm in enumerate(names):
-            pre.data[c][i][0] = (True, ATOMS.intern(nm))
-    # connections concrete as well (the full run with symbolic connections did not finish in 20 min): what
-    # stays symbolic are the composer options and every instance's EBLIF.type tag (present or absent, 3 values)
-    G = u.gid
-    cube = {0: [G("InnerPin", 0), pre.pinmap[1][1], pre.pinmap[2][1]], 1: [G("InnerPin", 1), pre.pinmap[3][2]]}
-    H.apply_wire_cube(pre, fx, cube)
-    heap = pre.copy()
-    ctx = Ctx(heap, M.REAL)
-    M.listeners_none(ctx)
-    ctx.globals_over[("spydrnet.global_state.global_service", "_registered_lookups")] = {}
-    ctx.loop_bound = 10
-    H.install_hrefs(ctx, u, fx)
-    fr = Frame(None, True, {})
-    A = pre.type_constraints() + spec.inv_all(pre) + H.local_nets(pre, fx)
-    A = [B(a) for a in A if a is not True]
-    runs = []
-    from vf.e1.sym import SBool
-    opt_bb, opt_cname = SBool(z3.Bool("write_blackbox")), SBool(z3.Bool("write_cname"))
-    try:
-        for k in range(2):
-            events = []
-
-            class _File:
-                pass
-
-            def w(c, f, args, kwargs, _ev=events):
-                _ev.append((live(c, f), args[-1]))
-            fobj = Local(_File, {})
-            _File.write = lambda self, s: None
-            _File.close = lambda self: None
-            ctx.stubs[_File.write] = w
-            ctx.stubs[_File.close] = lambda c, f, a, kw: None
-            ctx.local_classes = tuple(getattr(ctx, "local_classes", ())) + (_File,)
-            ctx.stubs[EBLIFComposer.prepare_file] = (lambda c, f, a, kw, _fo=fobj: _fo)
-            obj = Local(EBLIFComposer, {})
-            call_function(ctx, fr, EBLIFComposer.__init__, [obj, opt_bb, opt_cname], owner=EBLIFComposer)
-            call_function(ctx, fr, EBLIFComposer.run, [obj, Ref(u.gid("Netlist", 0), ("Netlist",)), "out.eblif"],
-                          owner=EBLIFComposer)
-            runs.append(events)
-            if k == 0:
-                mid = heap.copy()
-    except Unsupported as e:
-        return [result(name, INCONCLUSIVE, "E1/symheap", detail="Unsupported: %s" % e, wall_s=time.time() - t0)]
-    post = heap
-    goals = {}
-    fg = spec.frame_groups(pre, mid)
-    goals["netlist-unchanged-by-writing"] = [c for cs in fg.values() for c in cs]
-    same = [len(runs[0]) == len(runs[1])]
-    for (g1, t1), (g2, t2) in zip(runs[0], runs[1]):
-        same.append(EQ(g1, g2))
-        same.append(IMPLIES(g1, EQ(to_atom(t1).t, to_atom(t2).t)))
-    goals["second-write-emits-the-same-text"] = same
-    gm = ctx.__dict__.get("global_mutations", [])
-    goals["no-process-wide-state-written"] = [NOT(OR(*[g for g, _ in gm]))] if gm else []
-    funcs = sorted(fn_ident(f) for f in ctx.funcs_seen)
-    bounds = dict(u.describe(), fixture=fixture, names="concrete", writes_per_run=len(runs[0]))
-    ok = [B(NOT(ctx.bound)), B(NOT(ctx.exc))]
-    tw = {"returns": M.check(A, AND(NOT(ctx.exc), NOT(ctx.bound)), 300000)[0]}
-    if tw["returns"] != "sat":
-        return [result(name, VACUOUS if tw["returns"] == "unsat" else INCONCLUSIVE, "E1/symheap", twins=tw,
-                       bounds=bounds, detail="normal return not shown reachable: %s" % sorted(set(ctx.bound_why))[:3])]
-    out = []
-    for g, cs in goals.items():
-        oname = name + "/" + g
-        if not cs:
-            out.append(result(oname, DISCHARGED, "E1/symheap", queries=0, bounds=bounds, functions=funcs,
-                              detail="no write to a pre-existing process-level container occurs on any path"))
-            continue
-        st, dt, mdl = M.check(A + ok, NOT(AND(*cs)), timeout_ms)
-        if st == "unsat":
-            out.append(result(oname, DISCHARGED, "E1/symheap", queries=1, solver_s=dt, twins=tw, bounds=bounds,
-                              functions=funcs, detail="unsat", wall_s=time.time() - t0, paths=1))
-        elif st != "sat":
-            out.append(result(oname, INCONCLUSIVE, "E1/symheap", detail="solver: %s" % st, bounds=bounds))
-        else:
-            state = replay.heap_to_state(pre, mdl)
-            rp = {"engine": "E1", "property": "C16", "obligation": oname, "kind": "eblif_compose", "state": state,
-                  "netlist": u.gid("Netlist", 0), "goal": g}
-            try:
-                viol, txt = replay_eblif_compose(rp)
-            except Exception:
-                viol, txt = False, "replay crashed: " + traceback.format_exc()[-400:]
-            out.append(result(oname, VIOLATED if viol else ERROR, "E1/symheap", queries=1, solver_s=dt, twins=tw,
-                              bounds=bounds, functions=funcs, replay=rp if viol else None,
-                              detail=txt if viol else "counterexample did not reproduce: " + txt,
-                              wall_s=time.time() - t0))
-    return out
-
-
-def replay_eblif_compose(rp):
-    import os
-    import shutil
-    import tempfile
-    import spydrnet as sdn
-    with replay.listener_config("none"):
-        objs = replay.build(rp["state"])
-        built, _ = replay.abstract(objs)
-        diffs = replay.states_equal(rp["state"], built)
-        if diffs:
-            return False, "built state differs from the model: " + "; ".join(diffs[:3])
-        n = objs[rp["netlist"]]
-        d = tempfile.mkdtemp(prefix="vf_c16_")
-        try:
-            before, _ = replay.abstract(objs)
-            p1, p2 = os.path.join(d, "a.eblif"), os.path.join(d, "b.eblif")
-            sdn.compose(n, p1, write_blackbox=False)
-            after, _ = replay.abstract(objs)
-            sdn.compose(n, p2, write_blackbox=False)
-            t1, t2 = open(p1).read(), open(p2).read()
-            changed = ["%s#%d.%s" % (before[g]["cls"], g, k) for g in before for k in before[g] if before[g][k] != after[g][k]]
-            if rp["goal"] == "netlist-unchanged-by-writing":
-                return bool(changed), "compose changed %s" % changed[:4]
-            return t1 != t2, "second EBLIF write differs from the first (%d vs %d characters)" % (len(t1), len(t2))
-        finally:
-            shutil.rmtree(d, ignore_errors=True)
